@@ -124,3 +124,24 @@ func VerifC07_TarsStream() {
 	verif.Assert(verif.StaleReads() == 0, "engine: decoder read bytes that were never received")
 	verif.Cover("end")
 }
+
+// VerifC02_TarsIDWidth: tars carries a 32-bit id; the generated id survives
+// SetRequestId/GetRequestId on both packet kinds, and counters less than 2^32
+// apart give distinct ids.
+func VerifC02_TarsIDWidth() {
+	c := verif.U64("c")
+	c0 := c
+	id := tarsProtocol{}.GenerateRequestID(&c)
+	verif.Assert(c == c0+1, "counter must advance by one")
+	rq := &Request{cmd: &requestf.RequestPacket{}}
+	rq.SetRequestId(id)
+	verif.Assert(rq.GetRequestId() == id, "request id does not survive the packet field")
+	rs := &Response{cmd: &requestf.ResponsePacket{}}
+	rs.SetRequestId(id)
+	verif.Assert(rs.GetRequestId() == id, "response id does not survive the packet field")
+	d := verif.U64("d")
+	verif.Assume(d != 0 && d>>32 == 0)
+	c2 := c0 + d
+	verif.Assert(tarsProtocol{}.GenerateRequestID(&c2) != id, "two live counters map to the same wire id")
+	verif.Cover("end")
+}
